@@ -16,6 +16,7 @@ static int qt_from_name(const std::string &s)
 void Relay::configure(const J &c)
 {
 	case_q = c.gets("case_q", "keep"); case_a = c.gets("case_a", "keep");
+	text_a = c.getb("text_a");
 	hibit = c.gets("hibit", "keep"); hibit_a = c.gets("hibit_a", "keep"); plus_a = c.gets("plus_a", "keep"); under_a = c.gets("under_a", "keep"); plus = c.gets("plus", "keep"); under = c.gets("under", "keep");
 	refuse_mode = c.gets("refuse_mode", "servfail");
 	if (c.has("refuse_types")) for (auto &t : c["refuse_types"].a) { int q = qt_from_name(t.s); if (q) refuse.insert(q); }
@@ -28,7 +29,7 @@ void Relay::configure(const J &c)
 
 std::string Relay::sig() const
 {
-	std::string s = "cq=" + case_q + ",ca=" + case_a + ",hb=" + hibit + "/" + hibit_a + ",+=" + plus + "/" + plus_a + ",_=" + under + "/" + under_a + ",ed=" + edns + ",max=" + std::to_string(maxans) + "/" + big + ",ref=";
+	std::string s = "cq=" + case_q + ",ca=" + case_a + ",hb=" + hibit + "/" + hibit_a + ",+=" + plus + "/" + plus_a + ",_=" + under + "/" + under_a + (text_a ? ",txt" : "") + ",ed=" + edns + ",max=" + std::to_string(maxans) + "/" + big + ",ref=";
 	for (int t : refuse) s += std::to_string(t) + "+";
 	s += refuse_mode;
 	if (shuffle) s += ",shuf"; if (reencode) s += ",reenc"; if (idrewrite) s += ",idrw"; if (ref_reencode) s += ",refenc";
@@ -168,6 +169,23 @@ bool Relay::filter_answer(Dgram &d)
 			// the question section and the owner names are names too (a relay that normalises case does it everywhere)
 			if (case_a != "keep") { for (auto &q : m.qd) { DnsName before = q.name; fix(q.name); for (auto &r : m.an) if (r.name.labels == before.labels) r.name = q.name; } }
 			for (auto &r : m.an) { if (r.type == QT_CNAME || r.type == QT_MX || r.type == QT_SRV || r.type == QT_NS) fix(r.rname); if (ttl_rewrite) r.ttl = 30; }
+			// ... and to the text of TXT answers (the character strings, not their length octets), for relays that treat it as text
+			if (text_a) for (auto &r : m.an) if (r.type == QT_TXT) {
+				size_t o = 0;
+				while (o < r.rdata.size()) {
+					size_t l = r.rdata[o]; o++;
+					for (size_t i = 0; i < l && o + i < r.rdata.size(); i++) {
+						uint8_t &c = r.rdata[o + i];
+						ctr++;
+						if (case_a != "keep") recase(c, case_a, key ^ ctr * 1315423911ull);
+						if (c >= 0x80 && hibit_a == "strip") { c &= 0x7f; if (c < 0x21) c = '-'; }
+						if (c == '+' && plus_a == "mangle") c = '-';
+						if (c == '_' && under_a == "mangle") c = '-';
+					}
+					o += l;
+				}
+				S->count("relay.txt_text_transformed");
+			}
 			if (shuffle && m.an.size() > 1) {
 				for (size_t i = m.an.size() - 1; i > 0; i--) { size_t j = splitmix64(key ^ (i * 77)) % (i + 1); std::swap(m.an[i], m.an[j]); }
 			}
@@ -230,6 +248,7 @@ J gen_relay(Rng &r, const std::string &force_up)
 		if (r.chance(0.4)) c.set("hibit", hib[r.range(0, 2)]);
 		if (r.chance(0.25)) c.set("hibit_a", "strip");
 		if (r.chance(0.2)) c.set("plus_a", "mangle");
+		if (r.chance(0.5)) c.set("text_a", true);       // the answer-side transformations also apply to the text of TXT records
 		if (r.chance(0.15)) c.set("under_a", "mangle");
 		if (r.chance(0.35)) c.set("plus", pl[r.range(0, 2)]);
 		if (r.chance(0.25)) c.set("under", pl[r.range(0, 2)]);
